@@ -38,9 +38,14 @@ Print Assumptions C06_width.
 (* the structure of the wrapped lines (W = max(w,2)):
      ln ps          = the pieces ps joined by single U+0020
      lp_ok W ps     = ps is not empty, every piece is non-empty, safe and free of space clusters, and ln ps has at most W clusters
-     chain W pss    = for consecutive lines ps, ps': ln ps is full (W clusters) or W < |ln ps| + 1 + |first piece of ps'| *)
+     chain W pss    = for consecutive lines ps, ps': ln ps is full (W clusters) or W < |ln ps| + 1 + |first piece of ps'|
+     wds cl []      = the words of the collapsed text: maximal runs of clusters that are not a space
+     cov ps ws      = the pieces ps, in order, are the words ws, except that a word may be cut into
+                      chunks o ++ "-" followed by its remainder (which also serves C07 for Wrap:
+                      nothing is lost, invented or reordered; only those hyphens are added) *)
 Theorem C06_structure : forall (C : Classifier) (K : ClassifierOk) (U : Upper) text w sep ct b,
   collapse_space text sep = Ok ct -> all_safe ct -> ct <> [] -> wrap text w sep = Ok b ->
-  exists pss, b_lines b = map ln pss /\ Forall (lp_ok (Z.max w 2)) pss /\ chain (Z.max w 2) pss.
+  exists pss, b_lines b = map ln pss /\ Forall (lp_ok (Z.max w 2)) pss /\ chain (Z.max w 2) pss /\
+              cov (concat pss) (wds (clusters ct) []).
 Proof. intros C K U. exact wrap_structure. Qed.
 Print Assumptions C06_structure.
